@@ -25,7 +25,7 @@ import vlib
 from checks import c09
 
 THEOREMS = ["Yardl.C10.dependency_sort_total", "Yardl.C10.accepted_has_decreasing_rank", "Yardl.C10.reference_cycle_never_accepted",
-            "Yardl.C10.passes_after_resolution_are_guarded", "Yardl.C10.validation_errors_reach_the_exit_status"]
+            "Yardl.C10.passes_after_resolution_are_guarded", "Yardl.C10.tolerant_passes_are_as_reviewed", "Yardl.C10.validation_errors_reach_the_exit_status"]
 
 TIME_LIMIT = 20
 ALPHABET = list("<>()[],*?->:. \t") + ["int", "string", "float", "Foo", "T", "null", "3", "0", "18446744073709551616", "x", "->", "?", "*", "[]", "!stream"]
@@ -102,8 +102,21 @@ def judge(report, c, rc, out, secs, cmd, seed):
         case_dir = os.path.basename(os.path.dirname(c.root))   # .../caseN/pkg : any path under caseN counts (imported / missing directories too)
         if case_dir not in out and "_package.yml" not in out:
             report.violation(f"error-names-no-file:{sig}", replay, "the command failed without naming a file or directory of the package")
+        else:
+            # a diagnostic about the content of a model file carries a line number (`<file>.yml:<line>`); diagnostics about the
+            # package file / directories (missing, unreadable, imports, versions) and I/O errors are about a file as a whole
+            for ln in out.splitlines():
+                m = re.search(r"❌ (\S+\.ya?ml)(:\d+)?", ln)
+                if m and not m.group(2) and not m.group(1).endswith("_package.yml") and not NO_LINE_OK.search(ln):
+                    report.violation(f"error-without-line:{sig}", replay, "the diagnostic names a model file but no line although the problem lies inside the file")
+                    break
     if secs > 10 and rc != -9:
         report.count("slow>10s")
+
+
+# whole-file problems: unreadable / not UTF-8 / empty document / I/O
+NO_LINE_OK = re.compile(r"invalid (leading |trailing )?UTF-8|incomplete UTF|UTF-16|UTF-32|control characters are not allowed|is a directory|permission denied|no such file|EOF|file is empty|"
+                        r"does not contain|not found")
 
 
 def _signature(out):
@@ -221,6 +234,19 @@ CORPUS = [
                         "  computedFields:\n    c1: v[]\n    c2: w[]\n    c3: m[]\n    c4: d[]\n    c5: x[]\n", None),
     ("tagged-versions-node", "R: int\n", "namespace: Fz\nversions: !!map [a]\n"),
     ("tagged-imports-node", "R: int\n", "namespace: Fz\nimports: !!seq {a: b}\n"),
+    ("labelled-subscript-on-unnamed-dimensions", "R: !record\n  fields:\n    z: !array {items: int, dimensions: 2}\n    zz: !array {items: int, dimensions: [3, 3]}\n"
+                                                 "  computedFields:\n    c1: \"z[x: 1, y: 2]\"\n    c2: \"zz[y: 1, x: 2]\"\n", None),
+    ("enum-base-in-alias-cycle", "A: B\nB: A\nEn: !enum\n  base: A\n  values: [a, b]\nFl: !flags\n  base: B\n  values: [a, b]\n", None),
+    ("enum-base-in-longer-cycle", "A: B?\nB: C*\nC: A\nEn: !enum\n  base: C\n  values: {a: 1}\n", None),
+    ("null-package-file", "X: int\n", "null\n"),
+    ("tilde-package-file", "X: int\n", "~\n"),
+    ("document-marker-package-file", "X: int\n", "---\n"),
+    ("non-integer-vector-length", "R: !record\n  fields:\n    v: !vector {items: int, length: abc}\n", None),
+    ("non-integer-enum-value", "E: !enum\n  values:\n    a: xyz\n", None),
+    # open finding: positions the YAML library does not report
+    ("yaml-unknown-anchor", "R: !record\n  fields:\n    a: int\n    b: *nope\n", None),
+    ("yaml-problem-on-first-line", "\tR: !record\n  fields:\n    a: int\n", None),
+    ("non-integer-dimension-length", "R: !record\n  fields:\n    a: !array {items: int, dimensions: [!!int abc]}\n", None),
 ]
 
 
@@ -229,7 +255,7 @@ BOUNDARY = [0, 1, 2, 3, 127, 128, 255, 256, 32767, 32768, 65535, 65536, 2 ** 31 
 
 # every place of a model where an integer is read: computed-field expressions (index arguments, subscripts, arithmetic, conversions) and YAML scalars
 INT_EXPRESSIONS = ["size(x, {n})", "size(y, {n})", "size(d, {n})", "size(v, {n})", "size(w, {n})", "x[{n}, 0]", "x[0, {n}]", "x[{n}]", "y[{n}, 0]", "d[{n}]", "v[{n}]", "w[{n}]",
-                   "x[p: {n}, q: 0]", "m[{n}]", "km[{n}]", "{n}", "a + {n}", "{n} - a", "a * {n}", "a / {n}", "a ** {n}", "{n} as int8", "{n} as uint64", "{n} as float32", "{n} as string",
+                   "x[p: {n}, q: 0]", "z[{n}, 0]", "zz[0, {n}]", "z[p: {n}, q: 0]", "zz[q: 0, p: {n}]", "m[{n}]", "km[{n}]", "{n}", "a + {n}", "{n} - a", "a * {n}", "a / {n}", "a ** {n}", "{n} as int8", "{n} as uint64", "{n} as float32", "{n} as string",
                    "dimensionIndex(x, {n})", "dimensionCount({n})", "size({n})", "{n}[0]", "s[{n}]", "({n})", "-{n}", "- {n}", "{n}.5", "{n}e{n}", "0x{h}", "{n} + {n}",
                    "size(x, {n} + 0)", "x[{n} as int, 0]"]
 INT_YAML = ["V: !vector {{items: int, length: {n}}}", "A: !array {{items: int, dimensions: {n}}}", "A: !array {{items: int, dimensions: [{n}]}}", "A: !array {{items: int, dimensions: {{p: {n}}}}}",
@@ -239,7 +265,7 @@ INT_YAML = ["V: !vector {{items: int, length: {n}}}", "A: !array {{items: int, d
 
 
 # argument lists of every arity (none, one, too many) in every position that takes one
-ARITY_EXPRESSIONS = [t.format(a=a) for t in ("x[{a}]", "y[{a}]", "d[{a}]", "v[{a}]", "w[{a}]", "m[{a}]", "km[{a}]", "s[{a}]", "a[{a}]", "size({a})", "size(x, {a})", "dimensionIndex({a})",
+ARITY_EXPRESSIONS = [t.format(a=a) for t in ("x[{a}]", "y[{a}]", "z[{a}]", "zz[{a}]", "d[{a}]", "v[{a}]", "w[{a}]", "m[{a}]", "km[{a}]", "s[{a}]", "a[{a}]", "size({a})", "size(x, {a})", "dimensionIndex({a})",
                                               "dimensionIndex(x, {a})", "dimensionCount({a})", "nope({a})")
                      for a in ("", "0", "0, 0", "0, 0, 0", "p: 0", "p: 0, q: 0", "q: 0, p: 0", "p: 0, 0", "'p'", "x", "a, a")]
 
@@ -248,7 +274,8 @@ def boundary_cases(rng, sc, quick):
     """boundary integers in every position where the front end reads one (directed: all positions x all values on every tier)"""
     man = "namespace: Fz\n"
     rec = ("R: !record\n  fields:\n    a: int\n    s: string\n    x: !array {items: float, dimensions: [p, q]}\n    y: !array {items: float, dimensions: {p: 4, q: 8}}\n"
-           "    d: !array {items: float}\n    v: !vector {items: int, length: 3}\n    w: int*\n    m: string->int\n    km: uint64->int\n  computedFields:\n    c: ")
+           "    d: !array {items: float}\n    v: !vector {items: int, length: 3}\n    w: int*\n    m: string->int\n    km: uint64->int\n"
+           "    z: !array {items: float, dimensions: 2}\n    zz: !array {items: float, dimensions: [3, 3]}\n  computedFields:\n    c: ")
     k = 0
     for tmpl in INT_EXPRESSIONS:
         for n in BOUNDARY:
